@@ -50,16 +50,16 @@
 
 
 import ast
-import functools as ft
 import hashlib
+import importlib._bootstrap_external
 import sys
+import threading
 from collections.abc import Sequence
 from importlib.abc import MetaPathFinder
 from importlib.machinery import SourceFileLoader
 from importlib.util import cache_from_source, decode_source
 from inspect import isclass
 from typing import Optional, Union
-from unittest.mock import patch
 
 
 # The name of this function is magical
@@ -85,6 +85,36 @@ def _optimized_cache_from_source(typechecker_hash, /, path, debug_override=None)
     return cache_from_source(
         path, debug_override, optimization=f"jaxtyping9{typechecker_hash}"
     )
+
+
+# Which typechecker's cache entries the import machinery should use *in this thread*
+# right now (if any). `importlib` offers no hook for choosing the bytecode file name,
+# so `cache_from_source` is replaced - once - by a function that consults this. It is
+# per-thread on purpose: an import that another thread makes while one of our modules
+# is being compiled must read and write its ordinary `__pycache__` entry.
+_cache_marker = threading.local()
+_install_lock = threading.Lock()
+
+
+def _install_cache_from_source():
+    with _install_lock:
+        current = importlib._bootstrap_external.cache_from_source
+        if getattr(current, "_jaxtyping", None) is _cache_marker:
+            return
+
+        def _cache_from_source(path, debug_override=None, **kwargs):
+            typechecker_hash = getattr(_cache_marker, "typechecker_hash", None)
+            if typechecker_hash is None:
+                # Whatever was there before us: normally the real thing, possibly some
+                # other tool's replacement for it.
+                return current(path, debug_override, **kwargs)
+            else:
+                return _optimized_cache_from_source(
+                    typechecker_hash, path, debug_override
+                )
+
+        _cache_from_source._jaxtyping = _cache_marker
+        importlib._bootstrap_external.cache_from_source = _cache_from_source
 
 
 class Typechecker:
@@ -247,16 +277,17 @@ class _JaxtypingLoader(SourceFileLoader):
         )
 
     def get_code(self, fullname):
-        # Use a custom optimization marker - the import lock should make this monkey
-        # patch safe.
+        # Use a custom optimization marker, for this thread only (see `_cache_marker`).
         # Only whilst fetching (or compiling and caching) the code of this module, and
         # not whilst executing it: imports made from the module's body must read and
         # write their own `__pycache__` entries, not ones carrying our marker.
-        with patch(
-            "importlib._bootstrap_external.cache_from_source",
-            ft.partial(_optimized_cache_from_source, self._typechecker.get_hash()),
-        ):
+        _install_cache_from_source()
+        previous = getattr(_cache_marker, "typechecker_hash", None)
+        _cache_marker.typechecker_hash = self._typechecker.get_hash()
+        try:
             return super().get_code(fullname)
+        finally:
+            _cache_marker.typechecker_hash = previous
 
 
 class _JaxtypingFinder(MetaPathFinder):
